@@ -50,5 +50,6 @@ def run(ctx):
     R3.r10_8_each_class_once(ctx, 'R05.15')
     from . import alias_rules as A_
     A_.r05_17_dump_cycle_walk(ctx, 'R05.17')
+    S.r04_5_strip_tags(ctx, 'R05.18', keep_core=True)
     from . import memo_rules as M
     M.memo_sound(ctx, 'R05.M')
